@@ -1,43 +1,60 @@
 import BbRe.Model.FilePool
-import BbRe.Lemmas.FilePoolState
+import BbRe.Spec.ByteFile
+import BbRe.Lemmas.FilePoolRefine
 /-!
 # C15 (file half) — independent sparse files, sectors conserved
 
 Property theorems about `Model/FilePool.lean`, the transcription of
 `pkg/filesystem/pool/block_device_backed_file_pool.go`.  A history is a list of
 `(Op, Oracle)`: the operation together with the environment's answers during
-that call (allocator answers checked against the interface contract of
-`sector_allocator.go`, and the fault plan for device reads/writes, hole-source
-reads/seeks/Truncate/Close).  All theorems quantify over every sector size
-`≥ 1`, every device size, every number of files and every such history.
-Helper lemmas: `BbRe/Lemmas/FilePool*.lean`.
+that call — the `SectorAllocator`'s answers (each checked by the model against
+the interface contract of `sector_allocator.go`: `1 ≤ count ≤ maximum`, sectors
+numbered from 1, on the device, currently free; anything else is rejected) and
+the fault plan for device reads/writes and hole-source reads/seeks/`Truncate`/
+`Close`.  All theorems quantify over every sector size `≥ 1`, every device
+size, every number of files and every such history; `sector_conservation` and
+`isolation` hold for *every* oracle (all failure positions).  A history is
+*well-formed* (`WFOp`) when every `NewFile(holeSource, size)` gets a hole source
+without data at or beyond `size` (see `hole_source.go`; `ZeroHoleSource`
+always qualifies).  Helper lemmas: `BbRe/Lemmas/FilePool*.lean`; the byte-array
+specification: `BbRe/Spec/ByteFile.lean`.
 -/
 namespace BbRe.Properties.C15
-open BbRe.FilePool BbRe.Lemmas.FilePool
+open BbRe.FilePool BbRe.Lemmas.FilePool BbRe.ByteFile
+
+/-- the state after a history -/
+abbrev after (c : Cfg) (ops : List (Op × Oracle)) : State := run (init c) ops
+
+/-- the configuration never changes -/
+theorem cfg_after (c : Cfg) (ops : List (Op × Oracle)) : (after c ops).cfg = c := by
+  have : ∀ (ops : List (Op × Oracle)) (s : State), (run s ops).cfg = s.cfg := by
+    intro ops
+    induction ops with
+    | nil => intro s; rfl
+    | cons x xs ih =>
+      intro s
+      show (run (step s x.1 x.2).1 xs).cfg = s.cfg
+      rw [ih]
+      unfold step
+      cases x.1 <;> dsimp only <;> (try split) <;> (try rw [finish_fst]) <;> rfl
+  exact this ops (init c)
+
+/-! ## sector conservation -/
 
 /-- **`sector_conservation`**: in every reachable state — after any history,
 including operations that failed at any device write, hole-source read,
-allocation, hole-source `Truncate`/`Close` — the allocated set is exactly the
-union of the files' non-zero sector entries, no sector is allocated twice, and
-no sector was ever freed while not allocated. -/
+allocation, hole-source `Truncate`/`Close` (every error path of
+`writeToNewSectors` frees what it allocated) — the allocated set is exactly the
+union of the files' non-zero sector entries, no sector is allocated twice, all
+allocated sectors are on the device, and no sector was ever freed while not
+allocated. -/
 theorem sector_conservation (c : Cfg) (hss : 1 ≤ c.ss) (ops : List (Op × Oracle)) :
-    let st := run (init c) ops
+    let st := after c ops
     (∀ s, s ∈ st.allocd ↔ ∃ (i : Nat) (f : File), st.files[i]? = some f ∧ s ∈ f.sectors ∧ s ≠ 0) ∧
       st.allocd.Nodup ∧ st.dfree = false ∧ ∀ s ∈ st.allocd, 1 ≤ s ∧ s ≤ c.nsec := by
   intro st
   have h : Inv st := inv_run (inv_init c hss) ops
-  have hcfg : st.cfg = c := by
-    have : ∀ (ops : List (Op × Oracle)) (s : State), (run s ops).cfg = s.cfg := by
-      intro ops
-      induction ops with
-      | nil => intro s; rfl
-      | cons x xs ih =>
-        intro s
-        show (run (step s x.1 x.2).1 xs).cfg = s.cfg
-        rw [ih]
-        unfold step
-        cases x.1 <;> dsimp only <;> (try split) <;> (try rw [finish_fst]) <;> rfl
-    exact this ops (init c)
+  have hcfg : st.cfg = c := cfg_after c ops
   refine ⟨fun s => ⟨fun hs => ?_, ?_⟩, h.allocNodup, h.noDoubleFree, fun s hs => hcfg ▸ h.allocRange s hs⟩
   · obtain ⟨i, f, hf, hsf⟩ := h.noLeak s hs
     exact ⟨i, f, hf, hsf, by have := h.allocRange s hs; omega⟩
@@ -46,22 +63,53 @@ theorem sector_conservation (c : Cfg) (hss : 1 ≤ c.ss) (ops : List (Op × Orac
 
 /-- After closing all files nothing is allocated: the full capacity is available again. -/
 theorem all_closed_nothing_allocated (c : Cfg) (hss : 1 ≤ c.ss) (ops : List (Op × Oracle))
-    (hclosed : ∀ f ∈ (run (init c) ops).files, f.closed = true) : (run (init c) ops).allocd = [] := by
-  have h : Inv (run (init c) ops) := inv_run (inv_init c hss) ops
-  cases hA : (run (init c) ops).allocd with
+    (hclosed : ∀ f ∈ (after c ops).files, f.closed = true) : (after c ops).allocd = [] := by
+  have h : Inv (after c ops) := inv_run (inv_init c hss) ops
+  cases hA : (after c ops).allocd with
   | nil => rfl
   | cons s rest =>
     exfalso
     obtain ⟨i, f, hf, hsf⟩ := h.noLeak s (by rw [hA]; exact List.mem_cons_self)
-    have hmem : f ∈ (run (init c) ops).files := List.mem_of_getElem? hf
+    have hmem : f ∈ (after c ops).files := List.mem_of_getElem? hf
     rw [h.closedEmpty i f hf (hclosed f hmem)] at hsf
     cases hsf
+
+/-- `Close` (whether or not the hole source's `Close` fails) returns every sector of the file. -/
+theorem close_frees_all (c : Cfg) (hss : 1 ≤ c.ss) (ops : List (Op × Oracle)) (i : Nat) (o : Oracle) (f : File)
+    (hf : (after c ops).file? i = some f) :
+    ∀ s ∈ f.sectors, s ≠ 0 → s ∉ (step (after c ops) (.close i) o).1.allocd := by
+  intro s hs hs0 hmem
+  have h : Inv (after c ops) := inv_run (inv_init c hss) ops
+  have h' : Inv (step (after c ops) (.close i) o).1 := inv_step h _ _
+  obtain ⟨j, g, hg, hsg⟩ := h'.noLeak s hmem
+  have hfi := file?_some hf
+  by_cases hji : j = i
+  · subst hji
+    have : (step (after c ops) (.close j) o).1.files[j]? =
+        some (close f ((after c ops).env o)).1 := by
+      unfold step; dsimp only; rw [hf]; dsimp only; rw [finish_fst]
+      have hl : j < (after c ops).files.length := (List.getElem?_eq_some_iff.mp hfi.1).1
+      simp [List.getElem?_set, hl]
+    rw [this] at hg
+    cases hg
+    have hcl := close_part (f := f) (e := (after c ops).env o) (inv_part h hfi.1) h.noDoubleFree
+    rw [hcl.2.2.1] at hsg; cases hsg
+  · have hg' : (after c ops).files[j]? = some g := by
+      have := (step_others h (.close i) o j g (by simp [opTarget]; omega) · )
+      unfold step at hg; dsimp only at hg; rw [hf] at hg; dsimp only at hg; rw [finish_fst] at hg
+      dsimp only at hg
+      rw [List.getElem?_set] at hg
+      rw [if_neg (fun e => hji e.symm)] at hg
+      exact hg
+    exact h.disjoint i j f g (fun e => hji e.symm) hfi.1 hg' s hs0 hs hsg
+
+/-! ## isolation -/
 
 /-- **`isolation`, sector lists** (`Inv.disjoint`): in every reachable state the
 non-zero entries of all files' sector lists are pairwise distinct — within a
 file and between files — and all of them are allocated. -/
 theorem isolation_sectors (c : Cfg) (hss : 1 ≤ c.ss) (ops : List (Op × Oracle)) :
-    let st := run (init c) ops
+    let st := after c ops
     (∀ (i j : Nat) (f g : File), i ≠ j → st.files[i]? = some f → st.files[j]? = some g →
         ∀ s, s ≠ 0 → s ∈ f.sectors → s ∉ g.sectors) ∧
       (∀ (i : Nat) (f : File), st.files[i]? = some f → (f.sectors.filter (· ≠ 0)).Nodup) ∧
@@ -69,5 +117,210 @@ theorem isolation_sectors (c : Cfg) (hss : 1 ≤ c.ss) (ops : List (Op × Oracle
   intro st
   have h : Inv st := inv_run (inv_init c hss) ops
   exact ⟨h.disjoint, h.nodup, h.owned⟩
+
+/-- **`isolation`, bytes**: whatever is done to one file — write, truncate, close, read, seek, with
+any allocator answers and any failures — every other file keeps its entry and every byte readable
+through it (its whole contents as a byte array) is unchanged. -/
+theorem isolation (c : Cfg) (hss : 1 ≤ c.ss) (ops : List (Op × Oracle)) (op : Op) (o : Oracle)
+    (j : Nat) (g : File) (hj : opTarget op ≠ some j) (hg : (after c ops).files[j]? = some g) :
+    (step (after c ops) op o).1.files[j]? = some g ∧
+      Eqv (absFile c.ss (step (after c ops) op o).1.dev g) (absFile c.ss (after c ops).dev g) := by
+  have h : Inv (after c ops) := inv_run (inv_init c hss) ops
+  obtain ⟨h1, h2⟩ := step_others h op o j g hj hg
+  rw [cfg_after] at h2
+  exact ⟨h1, rfl, h2⟩
+
+/-- **A re-used sector is fully overwritten before it becomes readable.**  When
+`writeToNewSectors` succeeds, every byte of every sector it allocated — whatever
+a previous owner left there — holds the written data or the hole source's
+contents for that file offset; and on every path, success or failure, no byte
+of any sector that was allocated before the call changes. -/
+theorem new_sectors_fully_written (c : Cfg) (hole : Hole) (e e' : Env) (p : List FilePool.Byte)
+    (idx ow n first got : Nat) (hss : 1 ≤ c.ss) (how : ow < c.ss) (hp : 0 < p.length)
+    (hr : writeToNewSectors c hole e p idx ow = (e', .ok (n, first, got))) :
+    (∀ j, j < got * c.ss → rd e'.dev ((first - 1) * c.ss + j) =
+        if ow ≤ j ∧ j < ow + n then p.getD (j - ow) 0 else hole.read (idx * c.ss + j)) ∧
+      (∀ t k, k < c.ss → t + 1 ∈ e.allocd → rd e'.dev (t * c.ss + k) = rd e.dev (t * c.ss + k)) := by
+  obtain ⟨h1, _⟩ := wns_ok_dev hss how hp hr
+  have hw := wns_ok hr
+  refine ⟨fun j hj => ?_, fun t k hk ht => ?_⟩
+  · rw [h1 j hj]
+    unfold tgt
+    have hl : (p.take n).length = n := by rw [List.length_take, hw.2.2.2.2.2.2.2]; omega
+    rw [hl]
+    split
+    · rename_i hc; rw [getD_take _ _ _ (by omega)]
+    · rfl
+  · have := wns_conf (c := c) (h := hole) (e := e) (p := p) (idx := idx) hss how hp t k hk ht
+    rw [hr] at this; exact this
+
+/-! ## refinement of the byte-array specification -/
+
+/-- In every state reachable by a well-formed history every file is a well-formed byte array
+(nothing but zeros at or beyond its size, so growing it shows zeros). -/
+theorem files_wellformed (c : Cfg) (hss : 1 ≤ c.ss) (ops : List (Op × Oracle)) (hwf : ∀ x ∈ ops, WFOp x.1)
+    (i : Nat) (f : File) (hf : (after c ops).files[i]? = some f) : WF (absFile c.ss (after c ops).dev f) := by
+  have h := inv2_run (inv2_init c hss) ops hwf
+  have := h.files i f hf
+  rw [cfg_after] at this
+  exact absFile_wf this
+
+/-- **`file_refines_bytes`, `NewFile`**: the new file is the byte array of the hole source's first
+`size` bytes. -/
+theorem file_refines_bytes_new (c : Cfg) (ops : List (Op × Oracle)) (hole : Hole) (size : Nat)
+    (hwf : hole.limit ≤ size) (o : Oracle) (ho : o.answers = []) :
+    let st := after c ops
+    (step st (.new hole size) o).2 = .created st.files.length ∧
+      ∃ f, (step st (.new hole size) o).1.file? st.files.length = some f ∧
+        Eqv (absFile c.ss (step st (.new hole size) o).1.dev f) (create hole.read size) := by
+  intro st
+  have hfin : ∀ st' out, finish (st.env o) st' out = (st', out) := by
+    intro st' out; unfold finish State.env; dsimp only; rw [ho]; rfl
+  unfold step
+  dsimp only
+  rw [hfin]
+  refine ⟨rfl, ⟨[], size, hole, false⟩, ?_, rfl, fun i => ?_⟩
+  · unfold State.file?; dsimp only; simp
+  · show content c.ss st.dev ⟨[], size, hole, false⟩ i = _
+    rw [content_hole_of_zero _ _ _ _ rfl]
+    unfold create
+    dsimp only
+    split
+    · rfl
+    · exact hole_read_beyond _ _ (by omega)
+
+/-- **`file_refines_bytes`, `ReadAt`**: in any state reachable by a well-formed history, a read without
+device / hole-source read failures returns exactly what the byte-array specification returns —
+the latest written bytes, hole-source contents where nothing was written, zeros after a
+shrink-and-regrow — including the end-of-file behaviour; it changes nothing. -/
+theorem file_refines_bytes_read (c : Cfg) (hss : 1 ≤ c.ss) (ops : List (Op × Oracle)) (i : Nat) (f : File)
+    (hf : (after c ops).file? i = some f) (off n : Nat) (o : Oracle) (ho : o.answers = [])
+    (hdr : o.faults.dr = none) (hhr : o.faults.hr = none) :
+    let st := after c ops
+    (step st (.read i off n) o).2 =
+      .read (ByteFile.read (absFile c.ss st.dev f) off n).1
+        (if (ByteFile.read (absFile c.ss st.dev f) off n).2 then some .eof else none) ∧
+    (step st (.read i off n) o).1.files = st.files ∧ (step st (.read i off n) o).1.allocd = st.allocd := by
+  intro st
+  have hcfg : st.cfg = c := cfg_after c ops
+  obtain ⟨h1, h2, h3⟩ := readAt_refines (c := st.cfg) (f := f) (e := st.env o) off n (hcfg ▸ hss) hdr hhr
+  rw [hcfg] at h1 h2
+  unfold step
+  dsimp only
+  rw [hf]
+  dsimp only
+  have hans : (readAt st.cfg f (st.env o) off n).1.answers = [] := h3.2.2.trans ho
+  unfold finish
+  rw [hans]
+  dsimp only [List.isEmpty_nil, ↓reduceIte]
+  refine ⟨?_, rfl, h3.1⟩
+  rw [hcfg, h1, h2]
+  rfl
+
+/-- negative offsets are rejected without touching anything -/
+theorem negative_offsets_rejected (st : State) (i : Nat) (f : File) (hf : st.file? i = some f) (off : Int)
+    (hneg : off < 0) (n : Nat) (p : List FilePool.Byte) (o : Oracle) (ho : o.answers = []) :
+    (step st (.read i off n) o).2 = .read [] (some .invalid) ∧
+      (step st (.write i off p) o).2 = .wrote 0 (some .invalid) ∧
+      (step st (.trunc i off) o).2 = .done (some .invalid) ∧
+      ∀ d, (step st (.seek i off d) o).2 = .offset (.error .invalid) := by
+  refine ⟨?_, ?_, ?_, fun d => ?_⟩ <;>
+    (unfold step finish State.env; dsimp only; rw [hf]; dsimp only)
+  · unfold readAt; rw [if_pos hneg]; dsimp only; rw [ho]; rfl
+  · rw [writeAt_neg _ _ hneg]; dsimp only; rw [ho]; rfl
+  · rw [truncate_neg _ _ _ _ hneg]; dsimp only; rw [ho]; rfl
+  · unfold seek; rw [if_pos hneg]; dsimp only; rw [ho]; rfl
+
+/-- **`file_refines_bytes`, `WriteAt`**: in any reachable state and for *every* oracle (short
+allocations, allocation failures, device and hole-source failures at any position): exactly the
+`n` bytes reported written are written, as `ByteFile.write` says (the size grows to `off+n` if
+needed, a gap reads as zeros); nothing else of the file changes; no error means all of `p` was
+written; and none of the panics of the Go code (`incrementSectorIndex`, `insertSectorsContiguous`)
+is reachable. -/
+theorem file_refines_bytes_write (c : Cfg) (hss : 1 ≤ c.ss) (ops : List (Op × Oracle)) (i : Nat) (f : File)
+    (hf : (after c ops).file? i = some f) (off : Nat) (p : List FilePool.Byte) (o : Oracle)
+    (n : Nat) (err : Option Err) (hout : (step (after c ops) (.write i off p) o).2 = .wrote n err) :
+    ∃ f', (step (after c ops) (.write i off p) o).1.file? i = some f' ∧
+      Eqv (absFile c.ss (step (after c ops) (.write i off p) o).1.dev f')
+        (ByteFile.write (absFile c.ss (after c ops).dev f) off (p.take n)) ∧
+      n ≤ p.length ∧ (err = none → n = p.length) ∧ err ≠ some .panic := by
+  have h : Inv (after c ops) := inv_run (inv_init c hss) ops
+  have hcfg : (after c ops).cfg = c := cfg_after c ops
+  have hfi := file?_some hf
+  have hP := inv_part h hfi.1
+  have hss' : 0 < (after c ops).cfg.ss := h.ssPos
+  obtain ⟨_, hl, _, hnone, hpanic, _⟩ := writeAt_content (O := Oth (after c ops) i) (f := f)
+    (e := (after c ops).env o) p off hss' hP h.noDoubleFree
+  have href := writeAt_refines (O := Oth (after c ops) i) (f := f) (e := (after c ops).env o) p off hss' hP
+    h.noDoubleFree
+  have hcl := (writeAt_part (O := Oth (after c ops) i) (c := (after c ops).cfg) (f := f)
+    (e := (after c ops).env o) p (off : Int) hss' hP h.noDoubleFree).2.2.1
+  unfold step at hout ⊢
+  dsimp only at hout ⊢
+  rw [hf] at hout ⊢
+  dsimp only at hout ⊢
+  unfold finish at hout ⊢
+  split at hout
+  · rename_i hemp
+    rw [if_pos hemp]
+    simp only [Out.wrote.injEq] at hout
+    obtain ⟨rfl, rfl⟩ := hout
+    refine ⟨(writeAt (after c ops).cfg f ((after c ops).env o) p off).1, ?_, ?_, hl, hnone, hpanic⟩
+    · unfold State.file?
+      dsimp only
+      have hlen : i < (after c ops).files.length := (List.getElem?_eq_some_iff.mp hfi.1).1
+      simp only [List.getElem?_set, hlen, ↓reduceIte]
+      rw [hcl, hfi.2]; rfl
+    · rw [show c.ss = (after c ops).cfg.ss by rw [hcfg]]; exact href
+  · simp at hout
+
+/-- **`file_refines_bytes`, `Truncate`**: in any state reachable by a well-formed history, a
+`Truncate` that reports success is `ByteFile.truncate`: bytes below the new size are kept, everything
+from the new size on reads as zero — immediately and after growing the file again (shrink-then-grow
+never brings back old data or old hole-source contents). -/
+theorem file_refines_bytes_truncate (c : Cfg) (hss : 1 ≤ c.ss) (ops : List (Op × Oracle))
+    (hwf : ∀ x ∈ ops, WFOp x.1) (i : Nat) (f : File) (hf : (after c ops).file? i = some f) (sz : Nat)
+    (o : Oracle) (hout : (step (after c ops) (.trunc i sz) o).2 = .done none) :
+    ∃ f', (step (after c ops) (.trunc i sz) o).1.file? i = some f' ∧
+      Eqv (absFile c.ss (step (after c ops) (.trunc i sz) o).1.dev f')
+        (ByteFile.truncate (absFile c.ss (after c ops).dev f) sz) := by
+  have h2 := inv2_run (inv2_init c hss) ops hwf
+  have h : Inv (after c ops) := h2.inv
+  have hcfg : (after c ops).cfg = c := cfg_after c ops
+  have hfi := file?_some hf
+  have hP := inv_part h hfi.1
+  have hss' : 0 < (after c ops).cfg.ss := h.ssPos
+  have hcl := (truncate_part (c := (after c ops).cfg) (f := f) (e := (after c ops).env o) (sz : Int) hP
+    h.noDoubleFree).2.2
+  unfold step at hout ⊢
+  dsimp only at hout ⊢
+  rw [hf] at hout ⊢
+  dsimp only at hout ⊢
+  unfold finish at hout ⊢
+  split at hout
+  · rename_i hemp
+    rw [if_pos hemp]
+    simp only [Out.done.injEq] at hout
+    have href := truncate_refines (O := Oth (after c ops) i) (f := f) (e := (after c ops).env o) sz hss' hP
+      (h2.files i f hfi.1) hout
+    refine ⟨(truncate (after c ops).cfg f ((after c ops).env o) sz).1, ?_, ?_⟩
+    · unfold State.file?
+      dsimp only
+      have hlen : i < (after c ops).files.length := (List.getElem?_eq_some_iff.mp hfi.1).1
+      simp only [List.getElem?_set, hlen, ↓reduceIte]
+      rw [hcl, hfi.2]; rfl
+    · rw [show c.ss = (after c ops).cfg.ss by rw [hcfg]]; exact href
+  · simp at hout
+
+/-- **`file_refines_bytes`, `Len`**. -/
+theorem file_refines_bytes_len (st : State) (i : Nat) (f : File) (hf : st.file? i = some f) (o : Oracle)
+    (ho : o.answers = []) (ss : Nat) :
+    (step st (.len i) o).2 = .len (absFile ss st.dev f).size := by
+  unfold step finish State.env
+  dsimp only
+  rw [hf]
+  dsimp only
+  rw [ho]
+  rfl
 
 end BbRe.Properties.C15
